@@ -1,4 +1,4 @@
-import BoltonsVerif.C14.Proofs
+import BoltonsVerif.C14.Accept
 /-
 C14 — property theorems for the model of the `boltons.strutils` encoders.
 
@@ -95,6 +95,190 @@ theorem cmd_injective (a b : List Str) (ha : NoNul a) (hb : NoNul b) (h : args2c
   have h1 := cmd_roundtrip .modern a ha
   rw [h, cmd_roundtrip .modern b hb] at h1
   exact h1.symm
+
+/-! ### acceptance: ANY text that reads back as the arguments is a correct quoting (round 3)
+
+The statement constrains how the text is READ, not the text.  `shAccepts t args` (the reference POSIX
+lexer reads `t` as exactly `args`, nothing expanded) and `crtAccepts t args` (the MS C runtime rules, all
+three variants, read `t` as exactly `args`) are that clause for an arbitrary text `t`; the correspondence
+check evaluates them on the text the implementation produced.  The theorems below: the model's own
+quoting is accepted; acceptance determines the arguments; acceptance is compositional; a whole syntactic
+class of quotings (pieces; any valid splice for an embedded single quote; any superset of the
+"needs double quotes" predicate) is accepted. -/
+
+theorem sh_accepts_iff (t : Str) (args : List Str) : shAccepts t args = true ↔ shSplit t = some args := by
+  simp [shAccepts]
+
+theorem crt_accepts_iff (t : Str) (args : List Str) :
+    crtAccepts t args = true ↔ ∀ v, crtSplit v t = args := by
+  simp only [crtAccepts, Bool.and_eq_true, beq_iff_eq]
+  constructor
+  · rintro ⟨⟨h1, h2⟩, h3⟩ v; cases v <;> assumption
+  · intro h; exact ⟨⟨h _, h _⟩, h _⟩
+
+/-- the text the model of `args2sh` writes is accepted -/
+theorem sh_model_accepted (args : List Str) (h : NoNul args) : shAccepts (args2sh args) args = true :=
+  (sh_accepts_iff _ _).2 (sh_roundtrip args h)
+
+/-- the text the model of `args2cmd` writes is accepted -/
+theorem cmd_model_accepted (args : List Str) (h : NoNul args) : crtAccepts (args2cmd args) args = true :=
+  (crt_accepts_iff _ _).2 (fun v => cmd_roundtrip v args h)
+
+/-- a text is a correct quoting of at most one argument list -/
+theorem sh_accepts_unique (t : Str) (a b : List Str) (ha : shAccepts t a = true) (hb : shAccepts t b = true) :
+    a = b := by
+  rw [sh_accepts_iff] at ha hb
+  rw [ha] at hb
+  exact Option.some.inj hb
+
+theorem crt_accepts_unique (t : Str) (a b : List Str) (ha : crtAccepts t a = true)
+    (hb : crtAccepts t b = true) : a = b := by
+  rw [crt_accepts_iff] at ha hb
+  rw [← ha .modern, ← hb .modern]
+
+/-- hence EVERY encoder whose output is accepted is injective - whatever text it chooses -/
+theorem sh_accepted_encoder_injective (enc : List Str → Str)
+    (h : ∀ args, NoNul args → shAccepts (enc args) args = true)
+    (a b : List Str) (ha : NoNul a) (hb : NoNul b) (e : enc a = enc b) : a = b :=
+  sh_accepts_unique (enc a) a b (h a ha) (e ▸ h b hb)
+
+theorem crt_accepted_encoder_injective (enc : List Str → Str)
+    (h : ∀ args, NoNul args → crtAccepts (enc args) args = true)
+    (a b : List Str) (ha : NoNul a) (hb : NoNul b) (e : enc a = enc b) : a = b :=
+  crt_accepts_unique (enc a) a b (h a ha) (e ▸ h b hb)
+
+/-- acceptance is compositional: accepted texts joined by single blanks are accepted for the
+    concatenated argument lists (so a quoting may be judged one argument at a time) -/
+theorem sh_accepts_join (pas : List (Str × List Str)) (h : ∀ pa ∈ pas, shAccepts pa.1 pa.2 = true) :
+    shAccepts (join [' '] (pas.map (·.1))) (pas.map (·.2)).flatten = true :=
+  (sh_accepts_iff _ _).2 (shSplit_join pas (fun pa hpa => (sh_accepts_iff _ _).1 (h pa hpa)))
+
+example : shAccepts (join [' '] ["'a b'".toList, "c\\ d e".toList]) ["a b".toList, "c d".toList, "e".toList] = true := by
+  decide +kernel
+
+/-- the piece grammar: a word written as a non-empty sequence of pieces - `'…'` (no `'`), `\c`
+    (c not a newline), `"…"` (no `"` `\` `$` backquote), a non-empty bare run of inert characters - is
+    read as the concatenation of the piece values; words separated by single blanks -/
+theorem sh_pieces_sound (ws : List (List ShPiece)) (h : ∀ w ∈ ws, wordOk w = true) :
+    shAccepts (join [' '] (ws.map wordRender)) (ws.map wordValue) = true :=
+  (sh_accepts_iff _ _).2 (sh_pieces_sound_aux ws h)
+
+example : wordOk [.sgl "a $b".toList, .esc '\'', .dbl "c'* d".toList, .bare "e=f".toList] = true := by
+  decide +kernel
+example : wordRender [.sgl "a $b".toList, .esc '\'', .dbl "c'* d".toList, .bare "e=f".toList] =
+    "'a $b'\\'\"c'* d\"e=f".toList := by decide +kernel
+example : wordValue [.sgl "a $b".toList, .esc '\'', .dbl "c'* d".toList, .bare "e=f".toList] =
+    "a $b'c'* de=f".toList := by decide +kernel
+
+/-- `args2sh` with ANY splice for an embedded single quote that has the shape
+    `'` + pieces denoting one `'` + `'` (decidable side condition `spliceOk`), and ANY predicate `bare`
+    that leaves only arguments made of inert characters unquoted, round-trips -/
+theorem sh_roundtrip_with (bare : Str → Bool) (hb : ∀ a, bare a = true → ∀ c ∈ a, shLiteral c = true)
+    (splice : Str) (ps : List ShPiece) (hs : spliceOk splice ps = true)
+    (args : List Str) (h : NoNul args) :
+    shAccepts (args2shWith bare splice args) args = true :=
+  (sh_accepts_iff _ _).2 (sh_roundtrip_with_aux bare hb splice ps hs args h)
+
+-- the splice of the code as it is (`'"'"'`), the backslash splice (`'\''`), and one that is refused
+example : spliceOk "'\"'\"'".toList [.dbl [sq]] = true := by decide +kernel
+example : spliceOk "'\\''".toList [.esc sq] = true := by decide +kernel
+example : spliceOk "\\'".toList [] = false := by decide +kernel
+
+/-- the model's `args2sh` is the instance with the `'"'"'` splice and the generated safe-character class -/
+theorem args2sh_is_instance (args : List Str) :
+    args2sh args = args2shWith allSafe [sq, dq, sq, dq, sq] args := by
+  have hr : ∀ a, replSq a = replSqWith [sq, dq, sq, dq, sq] a := by
+    intro a; induction a with
+    | nil => rfl
+    | cons c cs ih => simp only [replSq, replSqWith, ih]; split <;> simp
+  have hq : ∀ a, shQuote a = shQuoteWith allSafe [sq, dq, sq, dq, sq] a := by
+    intro a; simp only [shQuote, shQuoteWith, hr]
+  simp only [args2sh, args2shWith]
+  congr 1
+  exact List.map_congr_left (fun a _ => hq a)
+
+/-- the same encoder with the backslash splice `'\''` (what `shlex.quote`-style code writes) is correct too -/
+theorem sh_roundtrip_backslash_splice (args : List Str) (h : NoNul args) :
+    shAccepts (args2shWith allSafe [sq, bsl, sq, sq] args) args = true :=
+  sh_roundtrip_with allSafe
+    (fun a ha c hc => safe_sub_literal c (by simp only [allSafe, List.all_eq_true] at ha; exact ha c hc))
+    _ [.esc sq] (by decide +kernel) args h
+
+example : args2shWith allSafe [sq, bsl, sq, sq] ["it's".toList, "x".toList] = "'it'\\''s' x".toList := by
+  decide +kernel
+
+/-- `args2cmd` with ANY "wrap in double quotes" predicate that is true at least for empty arguments and
+    arguments containing a blank or a tab round-trips, in every variant of the CRT rules -/
+theorem cmd_roundtrip_anyquote (qp : Str → Bool) (hq : ∀ a, needQuote a = true → qp a = true)
+    (args : List Str) (h : NoNul args) : crtAccepts (args2cmdQ qp args) args = true :=
+  (crt_accepts_iff _ _).2 (fun v => cmd_roundtrip_anyquote_aux v qp hq args h)
+
+/-- the model's `args2cmd` is the instance with the minimal predicate -/
+theorem args2cmd_is_instance (args : List Str) : args2cmd args = args2cmdQ needQuote args :=
+  args2cmd_eq_Q args
+
+example : args2cmdQ (fun a => needQuote a || a.contains '&') ["x&y".toList, "tail\\".toList, "a&\\".toList] =
+    "\"x&y\" tail\\ \"a&\\\\\"".toList := by decide +kernel
+-- the hypothesis is needed: an unquoted blank splits the argument
+example : crtSplit .modern (args2cmdQ (fun _ => false) ["a b".toList]) = ["a".toList, "b".toList] := by
+  decide +kernel
+
+/-- `escape_shell_args`: the style (and, for a falsy style, the platform) selects the reader, and the text
+    is accepted by that reader -/
+theorem esa_accepted (style : Str) (w : Bool) (args : List Str) (h : NoNul args) :
+    match styleOf style w with
+    | some .sh => ∃ t, escapeShellArgs style args w = some t ∧ shAccepts t args = true
+    | some .cmd => ∃ t, escapeShellArgs style args w = some t ∧ crtAccepts t args = true
+    | none => escapeShellArgs style args w = none := by
+  simp only [styleOf, escapeShellArgs]
+  generalize (if style.isEmpty = true then (if w = true then ['c', 'm', 'd'] else ['s', 'h']) else style) = st
+  by_cases h1 : st = ['s', 'h']
+  · simp only [h1, if_true]
+    exact ⟨_, rfl, sh_model_accepted args h⟩
+  · by_cases h2 : st = ['c', 'm', 'd']
+    · subst h2
+      simp only [if_true]
+      exact ⟨_, by simp, cmd_model_accepted args h⟩
+    · simp only [h1, h2, if_false]
+
+/-! ### the documented MS C runtime rules hold for the reference parser `crt`
+
+(the five rules quoted in the source comment of `args2cmd`; `crt v inArg inQuote pendingBackslashes cur rest`) -/
+
+/-- "2n backslashes followed by a quotation mark produce n backslashes, and the quotation mark toggles
+    quoting" (`cs` does not start with a second quotation mark while inside quotes: the `""` rule) -/
+theorem crt_rule_2n_backslashes_quote (v : CrtVariant) (ia q : Bool) (n : Nat) (cur cs : Str)
+    (hcs : q = false ∨ cs.head? ≠ some dq) :
+    crt v ia q 0 cur (bs (2 * n) ++ dq :: cs) = crt v true (!q) 0 (cur ++ bs n) cs := by
+  cases n with
+  | zero => simpa [bs_zero] using crt_dq_even v ia q 0 cur cs (by omega) hcs
+  | succ k =>
+    rw [crt_bs_run _ _ _ _ _ _ _ (Or.inr (by omega)), crt_dq_even _ _ _ _ _ _ (by omega) hcs]
+    congr 3; omega
+
+/-- "2n+1 backslashes followed by a quotation mark produce n backslashes and a literal quotation mark" -/
+theorem crt_rule_2n1_backslashes_quote (v : CrtVariant) (ia q : Bool) (n : Nat) (cur cs : Str) :
+    crt v ia q 0 cur (bs (2 * n + 1) ++ dq :: cs) = crt v true q 0 (cur ++ bs n ++ [dq]) cs := by
+  rw [crt_bs_run _ _ _ _ _ _ _ (Or.inr (by omega)), crt_dq_odd _ _ _ _ _ _ (by omega)]
+  congr 4; omega
+
+/-- "backslashes are interpreted literally, unless they immediately precede a quotation mark" -/
+theorem crt_rule_backslashes_literal (v : CrtVariant) (ia q : Bool) (n : Nat) (cur : Str) (c : Char) (cs : Str)
+    (h0 : c ≠ nul) (h1 : c ≠ bsl) (h2 : c ≠ dq) (h3 : isBlank c = false) (hn : 0 < n) :
+    crt v ia q 0 cur (bs n ++ c :: cs) = crt v true q 0 (cur ++ bs n ++ [c]) cs := by
+  rw [crt_bs_run _ _ _ _ _ _ _ (Or.inr hn), crt_plain _ _ _ _ _ _ _ h0 h1 h2 (Or.inl h3)]
+  simp
+
+/-- "arguments are delimited by white space" outside quotes, and a blank inside quotes is literal -/
+theorem crt_rule_blank (v : CrtVariant) (n : Nat) (cur cs : Str) :
+    crt v true false n cur (' ' :: cs) = (cur ++ bs n) :: crt v false false 0 [] cs ∧
+    crt v true true n cur (' ' :: cs) = crt v true true 0 (cur ++ bs n ++ [' ']) cs :=
+  ⟨crt_blank_end v n cur cs,
+   crt_plain v true true n cur ' ' cs (by decide) (by decide) (by decide) (Or.inr ⟨rfl, rfl⟩)⟩
+
+example : crtSplit .documented "a\\\\\\\"b \"c d\\\\\" e\\f".toList =
+    ["a\\\"b".toList, "c d\\".toList, "e\\f".toList] := by decide +kernel
+
 
 /-! ### integer ranges -/
 
